@@ -706,6 +706,14 @@ var blsAlgs = []bls.RogueKeyPreventionAlgorithm{bls.Basic, bls.MessageAugmentati
 func runBls(r *run, mult int) {
 	se, le := shortEnv(), longEnv()
 	idx := 0
+	nw := 1
+	if !r.quick {
+		nw = 4
+	}
+	for i := 0; i < nw*mult; i++ {
+		blsWire(r, se, i)
+		blsWire(r, le, i)
+	}
 	if r.quick {
 		for rep := 0; rep < mult; rep++ {
 			for _, alg := range blsAlgs {
